@@ -300,4 +300,68 @@ def Chain.setParams : Chain α → List α → Chain α
     (l.setParams (p.take l.numberOfParameters), true) :: Chain.setParams rest (p.drop l.numberOfParameters)
   | (l, false) :: rest, p => (l, false) :: Chain.setParams rest p
 
+/-! ### `Conv2DModel` (Models/ConvolutionalModel.h, `blas::kernels::conv2d`)
+
+Images are `h × w × c` (channels innermost), `nf` filters of `fh × fw × c`; the kernel `im2mat(_pad)`
+lays a filter out as `[dy][dx][channel]`.  `Padding::Valid`: no padding; otherwise `fh−1`/`fw−1` rows /
+columns of zeros, `⌊pad/2⌋` of them before the image.  Output `outH × outW × nf` (filters innermost). -/
+structure Conv (α : Type) where
+  h : Nat
+  w : Nat
+  c : Nat
+  nf : Nat
+  fh : Nat
+  fw : Nat
+  valid : Bool
+  filt : Nat → α
+  off : Nat → α
+  act : Act
+
+namespace Conv
+def padH (m : Conv α) : Nat := if m.valid then 0 else m.fh - 1
+def padW (m : Conv α) : Nat := if m.valid then 0 else m.fw - 1
+def outH (m : Conv α) : Nat := m.h - m.fh + 1 + m.padH
+def outW (m : Conv α) : Nat := m.w - m.fw + 1 + m.padW
+def nIn (m : Conv α) : Nat := m.h * m.w * m.c
+def nOut (m : Conv α) : Nat := m.outH * m.outW * m.nf
+def fsize (m : Conv α) : Nat := m.fh * m.fw * m.c
+/-- the flat input index read by output pixel `pix` through filter tap `t = (dy*fw + dx)*c + channel`,
+or `none` inside the zero padding -/
+def tapIndex (m : Conv α) (pix t : Nat) : Option Nat :=
+  let cc := t % m.c
+  let d := t / m.c
+  let iy := pix / m.outW + d / m.fw
+  let ix := pix % m.outW + d % m.fw
+  if m.padH / 2 ≤ iy ∧ iy < m.h + m.padH / 2 ∧ m.padW / 2 ≤ ix ∧ ix < m.w + m.padW / 2 then
+    some (((iy - m.padH / 2) * m.w + (ix - m.padW / 2)) * m.c + cc)
+  else none
+def inputAt (m : Conv α) (x : Nat → α) (pix t : Nat) : α :=
+  match m.tapIndex pix t with
+  | some j => x j
+  | none => 0
+/-- pre-activation of flat output index `o = pix*nf + f` -/
+def pre (m : Conv α) (x : Nat → α) (o : Nat) : α :=
+  (sumR m.fsize fun t => m.inputAt x (o / m.nf) t * m.filt ((o % m.nf) * m.fsize + t)) + m.off (o % m.nf)
+def evalRow (tanh : α → α) (m : Conv α) (x : Nat → α) (o : Nat) : α := m.act.eval tanh (m.pre x o)
+def evalB (tanh : α → α) (m : Conv α) (X : Nat → Nat → α) (i o : Nat) : α := m.evalRow tanh (X i) o
+def delta (m : Conv α) (out coeff : Nat → Nat → α) (i o : Nat) : α := coeff i o * m.act.dfac (out i o)
+/-- gradient w.r.t. filter entry `q = f*fsize + t` -/
+def gradFilt (m : Conv α) (B : Nat) (X out coeff : Nat → Nat → α) (q : Nat) : α :=
+  sumR B fun i => sumR (m.outH * m.outW) fun pix =>
+    m.delta out coeff i (pix * m.nf + q / m.fsize) * m.inputAt (X i) pix (q % m.fsize)
+def gradOff (m : Conv α) (B : Nat) (out coeff : Nat → Nat → α) (f : Nat) : α :=
+  sumR B fun i => sumR (m.outH * m.outW) fun pix => m.delta out coeff i (pix * m.nf + f)
+/-- gradient w.r.t. input entry `j` of row `i` -/
+def gradX (m : Conv α) (out coeff : Nat → Nat → α) (i j : Nat) : α :=
+  sumR m.nOut fun o => sumR m.fsize fun t =>
+    if m.tapIndex (o / m.nf) t = some j then m.delta out coeff i o * m.filt ((o % m.nf) * m.fsize + t) else 0
+/-- `parameterVector() = m_filters | m_offset` -/
+def params (m : Conv α) : List α := (List.range (m.nf * m.fsize)).map m.filt ++ (List.range m.nf).map m.off
+def numberOfParameters (m : Conv α) : Nat := m.nf * m.fsize + m.nf
+def setParams (m : Conv α) (p : List α) : Conv α :=
+  { m with filt := fun q => p.getD q 0, off := fun f => p.getD (m.nf * m.fsize + f) 0 }
+def gradParams (m : Conv α) (B : Nat) (X out coeff : Nat → Nat → α) : List α :=
+  (List.range (m.nf * m.fsize)).map (m.gradFilt B X out coeff) ++ (List.range m.nf).map (m.gradOff B out coeff)
+end Conv
+
 end SharkVerif.Models
